@@ -164,8 +164,12 @@ func distBetweenXYAndLine(xy XY, ln line) float64 {
 	case proj > abLen:
 		closest = ln.b
 	default:
-		scaled := ab.Scale(proj / abLen)
-		closest = scaled.Add(ln.a)
+		// The closest point is the foot of the perpendicular from xy onto
+		// the line. The distance to it is found directly from the cross
+		// product, rather than by constructing the (rounded) foot point and
+		// measuring the distance to that, which loses many digits when xy is
+		// close to the line compared to the length of the line.
+		return math.Abs(ab.Cross(xy.Sub(ln.a))) / abLen
 	}
 	return distBetweenXYs(xy, closest)
 }
